@@ -42,6 +42,9 @@ def text_value(rng):
     if m == 4:
         return rng.choice(["on:off", "xs:thing", "n:1", "a < b", "x & y", "xs:", "key: value"])
     if m == 5:
+        if rng.random() < 0.5:
+            # one long line (well beyond any plausible line width), words separated by single blanks
+            return " ".join(rng.choice(["the", "sphinx", "of", "black", "quartz", "judges", "my", "vow", "x1", "äö"]) for _ in range(rng.randrange(25, 70)))
         return "   "
     if m == 6:
         return None
